@@ -1404,6 +1404,34 @@ fn witnesses() -> Oracle {
         }
         Ok(())
     });
+    // D46: a table beyond the reader's MAX_ID
+    run("D46-table-over-max-id", "D46-save-writes-table-the-reader-refuses", &|| {
+        for (size, must_save) in [(999_999u64, false), (999_990u64, true)] {
+            let mut w = PdfWriter::new(b"", "1.7");
+            w.free(0, 0, 65535);
+            w.object(1, 0, b"<< /Type /Catalog /Pages 2 0 R >>");
+            w.object(2, 0, b"<< /Type /Pages /Kids [] /Count 0 >>");
+            w.finish(XrefFormat::Classic, size, "/Root 1 0 R", &[], 0);
+            let (mut st, mut tr) = open_plain(&w.out)?;
+            let v = dict_val(41, "New");
+            let r = st.create(W(v.clone())).map_err(|e| format!("create: {}", e))?.get_ref().get_inner();
+            match st.save(&mut tr) {
+                Err(e) => {
+                    if must_save {
+                        return Err(format!("/Size {}: save fails although the table stays below MAX_ID: {}", size, e));
+                    }
+                }
+                Ok(bytes) => {
+                    let bytes = bytes.to_vec();
+                    let after = reload_canon(&bytes, r.id);
+                    if after != v.canon() {
+                        return Err(format!("base /Size {}: save succeeded but the saved bytes read object {} as {}", size, r.id, after));
+                    }
+                }
+            }
+        }
+        Ok(())
+    });
     // D10 (repaired by the C04 package): an integer object followed by endobj
     run("D10-integer-object", "D10-no-separator-before-endobj", &|| {
         let b = witness_base(b"", false, false);
@@ -1447,10 +1475,10 @@ pub fn run(driver: &Driver, seed: u64, thorough: bool, replay: Option<&Value>) -
     }
     rep.oracles.push(witnesses());
     rep.streams.push(bytelen_stream(driver, seed, thorough));
-    let (st, or) = histories(driver, seed, 0, if thorough { 40_000 } else { 1500 }, false);
+    let (st, or) = histories(driver, seed, 0, if thorough { 60_000 } else { 6000 }, false);
     rep.streams.push(st);
     rep.oracles.push(or);
-    let (st, or) = histories(driver, seed, 0, if thorough { 4000 } else { 200 }, true);
+    let (st, or) = histories(driver, seed, 0, if thorough { 6000 } else { 500 }, true);
     rep.streams.push(st);
     rep.oracles.push(or);
     let _ = NoUpdate;
